@@ -9,10 +9,10 @@ package checks
 // delete+insert, value freed by a garbage-collected row).
 
 import (
-	"sync/atomic"
 	"fmt"
 	"sort"
 	"strings"
+	"sync/atomic"
 
 	"verifharness/internal/dyn"
 	"verifharness/internal/ev"
